@@ -25,7 +25,8 @@ RULE = ('table of every public data operation of Cache, FanoutCache, DjangoCache
 DISTINCT = ('cases',)
 REQUIRED = ('cache_timeouts_raised', 'cache_retry_waited', 'bulk_partial_timeouts', 'fanout_reported', 'django_reported',
             'deque_waited', 'index_waited', 'lockfree_reads_ok', 'fault_taken_after_file_write', 'writing_lookups',
-            'sibling_block_cases', 'rollback_journal_cases', 'commit_timeouts_raised', 'commit_retries_waited', 'fanout_bulk_totals_exact')
+            'sibling_block_cases', 'rollback_journal_cases', 'commit_timeouts_raised', 'commit_retries_waited', 'fanout_bulk_totals_exact',
+            'sharded_commit_failures_reported')
 ASSUMPTIONS = ('stats()/reset() are configuration calls with their own retry loop and are not driven',
                'the holder is a plain sqlite3 connection holding BEGIN IMMEDIATE on the same database file, or (sibling '
                'tier) a transact() block of another thread on the same Cache object')
@@ -745,6 +746,71 @@ def reader_cases():
         yield ('reader at commit: ' + label, call, True, 2)
 
 
+def reader_case_sharded(dc, sc, res, label, cls, call, want):
+    """The same fault against FanoutCache / DjangoCache data operations (one shard, so that the reader blocks the call's
+    shard): they report the failure through their return value and change nothing."""
+    d = sc.new()
+    if cls == 'FanoutCache':
+        obj = dc.FanoutCache(d, shards=1, timeout=0, disk_min_file_size=T, sqlite_journal_mode='delete')
+        obj.set('f', BIG, tag='t')
+        obj.set('n', 5)
+    else:
+        from diskcache import DjangoCache
+        obj = DjangoCache(d, {'SHARDS': 1, 'DATABASE_TIMEOUT': 0, 'OPTIONS': {'disk_min_file_size': T,
+                                                                              'sqlite_journal_mode': 'delete'}})
+        obj.set('f', BIG)
+        obj.set('n', 5)
+    shard_dir = os.path.join(d, '000')
+    reader = Reader(shard_dir)
+    ctrl = ReaderFault(reader, None)
+    wit = {'label': label, 'class': cls, 'fault': 'another connection holds a read transaction while the call commits '
+           '(rollback journal)'}
+    try:
+        before = snapshot([shard_dir])
+        reader.take()
+        probe.set_controller(ctrl)
+        try:
+            got = ('ok', call(obj, False))
+        except Exception as exc:       # noqa: BLE001
+            got = ('raise', '%s: %s' % (type(exc).__name__, exc))
+        probe.set_controller(None)
+        reader.release()
+        res.count('evaluations')
+        res.seen('cases', (cls, label, 'reader-at-commit', False, None))
+        if not ctrl.failed:
+            res.count('reader_cases_without_commit_conflict')
+            return
+        if got[0] != 'ok' or not (got[1] == want and type(got[1]) is type(want)):
+            res.violation('%s %s whose COMMIT cannot get its lock: must not raise and must report %r, got %r' % (
+                cls, label, want, got), wit)
+            return
+        after = snapshot([shard_dir])
+        if after != before:
+            res.violation('%s %s reported failure at COMMIT but changed the cache: %s' % (cls, label, diff(before, after)), wit)
+            return
+        res.count('sharded_commit_failures_reported')
+    finally:
+        probe.set_controller(None)
+        reader.close()
+        try:
+            obj.close()
+        except Exception:      # noqa: BLE001
+            pass
+        sc.drop(d)
+
+
+def reader_cases_sharded():
+    fan = {
+        'set file': (lambda f, r: f.set('x', BIG, retry=r), False), 'set replace': (lambda f, r: f.set('f', BIGB, retry=r), False),
+        'add': (lambda f, r: f.add('x', BIG, retry=r), False), 'touch': (lambda f, r: f.touch('f', 9, retry=r), False),
+        'incr': (lambda f, r: f.incr('n', 1, retry=r), None), 'decr': (lambda f, r: f.decr('n', 1, retry=r), None),
+        'pop': (lambda f, r: f.pop('f', 'D', retry=r), 'D'), 'delete': (lambda f, r: f.delete('f', retry=r), False),
+    }
+    for label, (call, want) in fan.items():
+        yield ('reader at commit: ' + label, 'FanoutCache', call, want)
+        yield ('reader at commit: ' + label, 'DjangoCache', call, want)
+
+
 def read_all(h):
     try:
         return h.read()
@@ -780,6 +846,12 @@ def run_shard(tier, seed, shard, nshards, res):
             if i % nshards != shard:
                 continue
             reader_case(dc, sc, res, label, call, retry, k)
+            if res.counters.get('violations_raw', 0) > 10:
+                return
+        for i, (label, cls, call, want) in enumerate(reader_cases_sharded()):
+            if i % nshards != shard:
+                continue
+            reader_case_sharded(dc, sc, res, label, cls, call, want)
             if res.counters.get('violations_raw', 0) > 10:
                 return
         for i, (label, call, retry, ending) in enumerate(sibling_cases()):
